@@ -362,3 +362,40 @@ def brace_shapes(max_levels=3):
                         src = 'int f(int a, int b, int *p)\n{\n    int x = 0, i = 0;\n    if (a) %s%s\n    return x + i + b;\n}\n' % (
                             ('{ %s }' % body) if (n and braces[0] and False) else body, ' else x = 2;' if tail == 'else' else '')
                         yield ('%s|%s|%s|%s' % ('-'.join(kinds) or 'flat', ''.join(map(str, braces)), inner, tail), src)
+
+
+# ------------------------------------------------------------------------------------------------ fixed programs
+class _FixedDraw:
+    """stands in for Hypothesis' draw() so that a *fixed* program can be built from a constant (used for the option sweeps of the
+    fixed universes; the strategies drawn by Gen are st.integers(lo, hi), st.floats(0, 1) and st.booleans() only)"""
+
+    def __init__(self, seed):
+        import random
+        self.rng = random.Random(seed)
+
+    def __call__(self, s):
+        w = getattr(s, 'wrapped_strategy', s)
+        n = type(w).__name__
+        if n == 'IntegersStrategy':
+            return self.rng.randint(w.start, w.end)
+        if n == 'FloatStrategy':
+            return self.rng.random()
+        if n == 'BooleansStrategy':
+            return self.rng.random() < 0.5
+        raise TypeError('unsupported strategy in fixed program: %s' % n)
+
+
+def fixed_program(seed, max_depth=4, funcs=3, **flags):
+    """a deterministic program (token list) built with the same grammar as c_program"""
+    d = _FixedDraw(seed)
+    g = Gen(d, max_depth, flags.pop('pp', True))
+    for k, v in flags.items():
+        setattr(g, k, v)
+    toks = []
+    if g.pp:
+        for m in MACROS:
+            toks += g.directive(m)
+    toks += list(PRELUDE)
+    for i in range(funcs):
+        toks += g.function(i)
+    return toks
